@@ -34,7 +34,7 @@ MIN_EVALS = 1500
 MIN_NONTRIVIAL = 800
 
 BY_CONSTRUCTION = {"foreign-signal", "orphan-signal", "foreign-bundle", "foreign-instance-ref", "self-cycle", "two-cycle",
-                   "unnamed-module", "name-clash"}
+                   "unnamed-module", "name-clash", "displaced-signal"}
 
 
 def expr_kind(e):
@@ -119,6 +119,17 @@ def mutations(design, rng, limit_per_class):
             add("foreign-signal", site, mutated(["fsig", "__other__", "os%d" % (w or 1)]))
             add("orphan-signal", site, mutated(["orphan", w or 1]))
             add("foreign-instance-ref", site, mutated(["pref_foreign", "__other__", "oi", "z"]) if (w or 1) == 1 else None)
+        if pkind == "scalar" and e[0] == "sig" and depth <= 1:
+            # the signal is displaced AFTER it was connected: its name is re-used for a new, wider signal
+            w0 = width_of(design, m, e)
+            if w0:
+                d = mutated(e)
+                d["displace"] = [m["name"], e[1], w0 + 1]
+                add("displaced-signal", site, d)
+        if pkind == "scalar" and inst.get("kind") == "pair" and e[0] == "anon":
+            e6 = copy.deepcopy(e)
+            e6[1]["zzextra"] = ["sig", "zzx1"]
+            add("extra-member", f"anon/pair/depth{min(depth, 2)}", mutated(e6, extra_sigs=[["zzx1", 1]]), "missing-member")
         if pkind == "bundle" and e[0] in ("bun", "anon", "bref", "pref"):
             _, bp = refsem.iface(design, inst["of"])
             bname = bp[port]
@@ -247,6 +258,9 @@ def build_mutant(design):
             m.name = ms["name_override"]
         if clash and ms["name"] in clash:
             m.name = f"Clash{built.uid}"
+    disp = design.get("displace")
+    if disp and disp[0] in built.modules:
+        built.modules[disp[0]].add(h.Signal(width=disp[2]), name=disp[1])
     cyc = design.get("cycle")
     if cyc:
         if cyc[0] == "self":
